@@ -4,5 +4,5 @@ f=$1; n=$2
 tmp=$(mktemp -d)
 head -n $((n-1)) "$f" > $tmp/G.v
 echo "Show. Abort All." >> $tmp/G.v
-cd /verif/coq && coqc -Q . P2 $tmp/G.v 2>&1 | tail -${3:-40}
+cd "$(dirname "$0")/../coq" && coqc -Q . P2 $tmp/G.v 2>&1 | tail -${3:-40}
 rm -rf $tmp
